@@ -48,7 +48,8 @@ def check_range_runs(ctx, rep, RULE):
         emit = [st for st in brk if isinstance(st, ast.If)]
         thr = "range_end - range_start >= ProgramData.option(ProgramOption.COLLAPSED_RANGE_LENGTH)"
         rep.check(len(emit) == 1 and ast.unparse(emit[0].test) == thr and brk.index(emit[0]) == 0, RULE, GCT, "a closed run is emitted iff long enough, before the restart", "closed-run emission changed")
-        after = [st for st in walk_no_nested(fn) if isinstance(st, ast.If) and ast.unparse(st.test) == thr]
+        # (the closing test may additionally require that a first element exists: `range_start < len(list) and <threshold>` - C18.r)
+        after = [st for st in walk_no_nested(fn) if isinstance(st, ast.If) and ast.unparse(st.test) in (thr, "range_start < len(on_values_remaining) and " + thr)]
         rep.check(len(after) == 2, RULE, GCT, "the last run is emitted after the loop under the same threshold", "final-run emission changed")
         for e in after:
             src = "\n".join(ast.unparse(s) for s in e.body)
